@@ -119,7 +119,11 @@ func (c *SeqCtx) Fail(clause, detail string, ops []string) {
 		if !again {
 			c.unreproduced++
 			if c.firstUnreproduced == "" {
-				c.firstUnreproduced = fmt.Sprintf("clause %q, case %v", clause, ops)
+				d := detail
+				if len(d) > 600 {
+					d = d[:600]
+				}
+				c.firstUnreproduced = fmt.Sprintf("clause %q, case %v: %s", clause, ops, d)
 			}
 			return
 		}
